@@ -384,6 +384,16 @@ def run_life(prop, tier, seed, keep=False):
             log(r.stderr.strip())
             summarize_trace(w.path("trace.ndjson"), ev, "")
             rc = trace_validate(w, prop, ["C09", "C06", "C01", "OptsIntact"], "trace.ndjson", ev, label="redefine-scenarios")
+        if rc == 0 and prop == "C09":
+            # everything given to NewFunc: an option-less Redefine, then an option-less Call (what planning prepared for itself
+            # must not be what the call then uses; the call must behave as the same call without the Redefine: C02 / C05 / C06)
+            n = 1200 if tier == "quick" else 12000
+            w.run_drive(["gen", "-profile", "general", "-n", str(n), "-seed", str(seed + 9), "-out", "scenarios5.json"])
+            allc = [dict(x, allCtor=True, ndef=len(x["inputs"])) for x in json.load(open(w.path("scenarios5.json"))) if x["mode"] == "call" and not x.get("bad")]
+            vlib.write_json(w.path("scenarios5.json"), allc)
+            r = w.run_drive(["run", "-in", "scenarios5.json", "-reps", "2", "-seed", str(seed), "-out", "trace5.ndjson"])
+            log(r.stderr.strip())
+            rc = trace_validate(w, prop, ["C09", "C06", "C01", "C02", "C05"], "trace5.ndjson", ev, label="all-at-construction")
         if rc == 0 and prop == "C11":
             # run-once functions of every form inside ordinary scenarios (a converter needed several times in one call)
             n = 2500 if tier == "quick" else 25000
